@@ -152,7 +152,7 @@ let form_of = function "l" -> FLoad | "r" -> FLoadRaw | "p" -> FLoadPlusRaw | _ 
 
 let eclass_name = function
   | ESetup -> "setup" | EOpen -> "open" | EIo -> "io" | EHashMismatch -> "hash_mismatch"
-  | EDecode -> "decode" | EEncode -> "encode" | ECommit -> "commit"
+  | EDecode -> "decode" | EEncode -> "encode" | ECommit -> "commit" | EReify -> "reify"
 
 let status_name = function SOk -> "ok" | SErr e -> "err." ^ eclass_name e | SPanic -> "panic"
 
@@ -213,8 +213,11 @@ let first_failure (cap : int) (sched : wact list) (chunks : bytes list) : bool =
 (* is_store, write schedule (stores through a misbehaving writer), proto text, ...; form, link *)
 type pop = PS of bool * wact list option * string * lproto * dm | PG of string * bytes
 
-let parse_op (s : string) : pop =
+let nested_marks : (int, unit) Hashtbl.t = Hashtbl.create 8   (* positions of nested (N) ops *)
+
+let rec parse_op (s : string) : pop =
   match split ':' s with
+  | "N" :: _sys :: rest -> parse_op (String.concat ":" rest)
   | ["S"; p; _h; v] -> PS (true, None, p, parse_proto p, dm_of_string v)
   | ["W"; p; _h; sc; v] -> PS (true, Some (parse_sched sc), p, parse_proto p, dm_of_string v)
   | ["C"; p; _h; v] -> PS (false, None, p, parse_proto p, dm_of_string v)
@@ -234,7 +237,13 @@ let proto_in_space (p : string) : bool =
 let do_hist id kind trusted reg_text ops_text obs =
   let (encs, decs) = parse_reg reg_text in
   let encoders = reg_fun encs and decoders = reg_fun decs in
-  let pops = List.map parse_op (split ';' ops_text) in
+  let op_texts = split ';' ops_text in
+  (* a nested operation (performed inside the storage opener of the next op) is, for the model, the
+     same operation performed just before it: hashers are fresh per call and a ComputeLink / load
+     changes no state, so nesting is invisible — the tie obligation this run discharges *)
+  Hashtbl.reset nested_marks;
+  List.iteri (fun i t -> if String.length t > 2 && String.sub t 0 2 = "N:" then Hashtbl.replace nested_marks i ()) op_texts;
+  let pops = List.map parse_op op_texts in
   let sk = if kind = "cid" then cidmem_kind else memstore_kind in
   let bad = ref false in
   let ops = List.map (function
@@ -247,8 +256,14 @@ let do_hist id kind trusted reg_text ops_text obs =
          | Some l -> OLoad (form_of f, l)
          | None -> bad := true; OLoad (form_of f, { l_v0 = false; l_codec = N0; l_mhtype = N0; l_digest = [] }))) pops in
   let (outs, st) = run hasher_ok hash encoders decoders !store_latch sk trusted [] ops in
-  let model_obs =
-    String.concat ";" (List.map (function OutS s -> sout_text s | OutL o -> lout_text o) outs @ [storage_text st]) in
+  let out_texts = Array.of_list (List.map (function OutS s -> sout_text s | OutL o -> lout_text o) outs) in
+  let setup_failed i = (match List.nth_opt outs i with
+      | Some (OutS s) -> s.so_status = SErr ESetup
+      | Some (OutL o) -> o.lo_status = SErr ESetup
+      | None -> true) in
+  (* the opener of the outer op is never reached when the outer op fails in its set-up *)
+  Hashtbl.iter (fun i () -> if setup_failed (i + 1) then out_texts.(i) <- "notrun") nested_marks;
+  let model_obs = String.concat ";" (Array.to_list out_texts @ [storage_text st]) in
   let model_obs = if !missing then model_obs ^ ";!table-entry-missing" else model_obs in
   (* ---- oracle, on the implementation's observation *)
   let iobs = Array.of_list (split ';' obs) in
@@ -266,6 +281,7 @@ let do_hist id kind trusted reg_text ops_text obs =
     let key_of_link (l : link) = hex_of_bytes (skey sk l) in
     List.iteri (fun i op ->
         let o = iobs.(i) in
+        if o = "notrun" && Hashtbl.mem nested_marks i then () else
         match op with
         | PS (is_store, wsched, ptext, lp, v) ->
           (* a Write of the encoder's output fails (or is short) at the storage writer: the store
@@ -382,21 +398,11 @@ let do_hist id kind trusted reg_text ops_text obs =
 let chunks_of (s : string) : bytes list =
   if s = "" then [] else List.map (fun p -> if p = "_" then [] else bytes_of_hex p) (split '+' s)
 
-let do_load form trusted link_hex stream tail obs =
-  match parse_link (bytes_of_hex link_hex) with
-  | None -> ("badlink", "skip")
-  | Some l ->
-    let chunks = chunks_of stream in
-    let ro = (match tail with
-        | "open" -> ROpenErr
-        | "err" -> RStream (chunks, TErr)
-        | _ -> RStream (chunks, TEof)) in
-    let f = form_of form in
-    let o = load_any hasher_ok hash g_decoders f trusted ro l in
-    let model_obs = lout_text o ^ (if !missing then "/!table-entry-missing" else "") in
-    (* ---- oracle *)
-    let fails = ref [] in
-    let skip = ref false in
+(* SPEC of one load, evaluated on the implementation's observation [obs] = status/node/raw:
+   [trusted] is what the USER declared; [ok_reify_error]: a failing NodeReifier is configured, its
+   error is an acceptable outcome for a block that verifies and decodes *)
+let load_oracle ?(ok_reify_error = false) fails skip (f : lform) (trusted : bool) (l : link)
+    (chunks : bytes list) (tail : string) (obs : string) : unit =
     (match split '/' obs with
      | [st; node; raw] ->
        let data = List.concat chunks in
@@ -427,6 +433,8 @@ let do_load form trusted link_hex stream tail obs =
              end;
              if f = FLoadRaw || f = FLoadPlusRaw then
                if raw <> "x" ^ hex_of_bytes data then add_fail fails "raw_differs"
+           end else if ok_reify_error && st = "err.reify" && (f = FLoad || f = FLoadPlusRaw) && decoded <> None then begin
+             if node <> "-" then add_fail fails "node_with_error"
            end else begin
              (* a block that hashes to its link may only be refused by the decoder's verdict on
                 those bytes.  Known defect (refmt's byte reader turns a (0, nil) read into a zero
@@ -446,6 +454,86 @@ let do_load form trusted link_hex stream tail obs =
              if node <> "-" then add_fail fails "node_with_error"
            end
        end
+     | _ -> add_fail fails "malformed_obs")
+
+let do_load form trusted link_hex stream tail obs =
+  match parse_link (bytes_of_hex link_hex) with
+  | None -> ("badlink", "skip")
+  | Some l ->
+    let chunks = chunks_of stream in
+    let ro = (match tail with
+        | "open" -> ROpenErr
+        | "err" -> RStream (chunks, TErr)
+        | _ -> RStream (chunks, TEof)) in
+    let f = form_of form in
+    let o = load_any hasher_ok hash g_decoders f trusted ro l in
+    let model_obs = lout_text o ^ (if !missing then "/!table-entry-missing" else "") in
+    let fails = ref [] in
+    let skip = ref false in
+    load_oracle fails skip f trusted l chunks tail obs;
+    List.iter (add_fail fails) !law_broken;
+    (model_obs, if !fails <> [] then verdict_of fails else if !skip then "skip" else "ok")
+
+(* ------------------------------------------------------------------ C06: NodeReifier scenarios *)
+
+let ropen_of chunks tail =
+  match tail with
+  | "open" -> ROpenErr
+  | "err" -> RStream (chunks, TErr)
+  | _ -> RStream (chunks, TEof)
+
+let do_reify form trusted rmode plink_hex pstream ptail children obs =
+  match parse_link (bytes_of_hex plink_hex) with
+  | None -> ("badlink", "skip")
+  | Some pl ->
+    let kids = if children = "" then [] else
+        List.map (fun c -> match split '~' c with
+            | [lh; st; tl; now; later] ->
+              (match parse_link (bytes_of_hex lh) with
+               | Some l -> (lh, l, chunks_of st, tl, now, later)
+               | None -> failwith "bad child link")
+            | _ -> failwith ("bad child " ^ c)) (split ';' children) in
+    let pchunks = chunks_of pstream in
+    (* the USER's link system: the trust flag and what the storage serves per link *)
+    let served = (plink_hex, ropen_of pchunks ptail) :: List.map (fun (lh, _, ch, tl, _, _) -> (lh, ropen_of ch tl)) kids in
+    let h = { h_trusted = trusted;
+              h_open = (fun l -> match List.assoc_opt (hex_of_bytes (link_binary l)) served with
+                  | Some ro -> ro | None -> ROpenErr) } in
+    let rm = (match rmode with "none" -> RNone | "fail" -> RFail | _ -> RId) in
+    let f = form_of form in
+    let outer = load_h hasher_ok hash g_decoders rm f h pl in
+    let hd = reifier_handle hasher_ok hash g_decoders rm f h pl in
+    let b = Buffer.create 256 in
+    Buffer.add_string b (lout_text outer);
+    (match hd with
+     | None -> Buffer.add_string b ";inv=0,ht=-"
+     | Some h' -> Buffer.add_string b (";inv=1,ht=" ^ (if h'.h_trusted then "1" else "0")));
+    (* loads of the child links through the handle the reifier received: during the outer call
+       (nested reifier invocations return the node untouched) and after it returned *)
+    List.iter (fun (_, l, _, _, now, later) ->
+        List.iter (fun frm ->
+            Buffer.add_char b ';';
+            match hd with
+            | Some h' when frm <> "-" -> Buffer.add_string b (lout_text (load_h hasher_ok hash g_decoders RId (form_of frm) h' l))
+            | _ -> Buffer.add_char b '-') [now; later]) kids;
+    let model_obs = Buffer.contents b ^ (if !missing then ";!table-entry-missing" else "") in
+    (* ---- oracle: every load through ANY link system handle the library handed out obeys C06
+       with the trust the USER declared *)
+    let fails = ref [] in
+    let skip = ref false in
+    (match split ';' obs with
+     | outer_obs :: meta :: kid_obs when List.length kid_obs = 2 * List.length kids ->
+       load_oracle ~ok_reify_error:(rm = RFail) fails skip f trusted pl pchunks ptail outer_obs;
+       (match split ',' meta with
+        | ["inv=1"; ht] ->
+          if not (f = FLoad || f = FLoadPlusRaw) then add_fail fails "reifier_invoked_by_fill_or_loadraw";
+          if ht <> "ht=" ^ (if trusted then "1" else "0") then add_fail fails "reifier_handle_trust_changed"
+        | _ -> ());
+       let ko = Array.of_list kid_obs in
+       List.iteri (fun i (_, l, ch, tl, now, later) ->
+           List.iteri (fun j frm ->
+               let o = ko.(2 * i + j) in
+               if o <> "-" && frm <> "-" then load_oracle fails skip (form_of frm) trusted l ch tl o) [now; later]) kids
      | _ -> add_fail fails "malformed_obs");
     List.iter (add_fail fails) !law_broken;
     (model_obs, if !fails <> [] then verdict_of fails else if !skip then "skip" else "ok")
@@ -536,6 +624,10 @@ let () =
       | [id; "load"; form; trusted; link; stream; tail; tables; obs] ->
         load_tables tables;
         let (m, v) = (try do_load form (trusted = "1") link stream tail obs with Failure e -> ("driver-error:" ^ e, "ok")) in
+        out id m v
+      | [id; "reify"; form; trusted; rmode; plink; pstream; ptail; children; tables; obs] ->
+        load_tables tables;
+        let (m, v) = (try do_reify form (trusted = "1") rmode plink pstream ptail children obs with Failure e -> ("driver-error:" ^ e, "ok")) in
         out id m v
       | [id; "store"; proto; _holder; value; wopen; cap; sched; commiterr; tables; obs] ->
         load_tables tables;
